@@ -46,14 +46,22 @@ class C13:
     budgets = {"quick": {"shards": 14, "examples": 120, "seconds": 70},
                "thorough": {"shards": 16, "examples": 1200, "seconds": 1500}}
 
+    def strata(self, ctx):
+        out = []
+        for v in TARGETS:
+            for host in (["3.12", v] if v in HOSTS and v != "3.12" else ["3.12"]):
+                for kind, w in (("exec", 2), ("consts", 1), ("fields", 1)):
+                    if kind == "fields" and v in ("3.11", "3.12", "3.13"):
+                        continue        # (3.11+ has no co_nlocals field to disagree with the names)
+                    out.append(["%s:%s:on-%s" % (kind, v, host), self.case_strategy(v, host, kind), w])
+        return out
+
     def strategy(self, ctx):
+        return st.one_of([s_ for _, s_, _ in self.strata(ctx)])
+
+    def case_strategy(self, v, host, kind):
         @st.composite
         def case(draw):
-            v = draw(st.sampled_from(TARGETS))
-            host = draw(st.sampled_from(["3.12", v])) if v in HOSTS else "3.12"
-            kind = draw(st.sampled_from(["exec", "exec", "consts", "fields"]))
-            if kind == "fields" and v in ("3.11", "3.12", "3.13"):
-                kind = "consts"         # (3.11+ has no co_nlocals field to disagree with the names)
             if kind == "fields":
                 # a hand-built code object: header integers that no compiler derives from one another
                 nvars = draw(st.integers(0, 6))
